@@ -42,6 +42,8 @@ def step : List String → String
     | _, _, _ => "bad-op"
   | "fund" :: _ => "ok"
   | "fundpool" :: _ => "ok"
+  | ["sendoff"] => "skip"
+  | ["sendon"] => "skip"
   | "creset" :: _ => "ok"
   | "slash" :: _ => "skip"
   | "govburn" :: _ => "skip"
